@@ -71,6 +71,8 @@ BAD_OPTS = {
     'bad_type_bool': ('send_hup', 'yes'),
     'bad_value_uid': ('uid', 'no-such-user-xyz'),
     'bad_value_gid': ('gid', 'no-such-group-xyz'),
+    'bad_value_nan': ('graceful_timeout', '@nan'),
+    'bad_value_inf': ('warmup_delay', '@inf'),
     'bad_value_uid_number': ('uid', 54321),
     'bad_value_gid_number': ('gid', 54321),
     'bad_value_uid_numeric_string': ('uid', '54321'),
